@@ -324,6 +324,7 @@ def run_cases(chk, binary, lines, urg=True, mode="fixed"):
             r.hd_ties, r.other_ties = set(), []
             r.model_out, r.note, r.mline, r.cfg = None, None, None, None
             if not r.problems:
+                ac.align_behaviours(r.tasks, r.obs)
                 r.hd_ties, r.other_ties = ac.find_ties(r.tasks, r.obs)
                 try:
                     ev = ac.log_to_history(r.tasks, r.obs, r.hd_ties)
